@@ -2,17 +2,25 @@
 
 Proved for every degree, derivative order, knot vector and span: every subscript of the two triangular tables (ndu, a) and
 of the result is in range, every divisor is a positive knot difference (the lower triangle of ndu holds
-U[span + b + 1] - U[span + 1 - a + b] > 0), and the result has min(degree, order) + 1 rows of degree + 1 entries (rows of
-order above the degree are not produced: the callers fill them with zeros).  That row k holds the k-th derivatives of the
-basis functions is decided by the bounded tier (formal derivative of the symbolic basis functions)."""
+U[span + b + 1] - U[span + 1 - a + b] > 0), the result has min(degree, order) + 1 rows of degree + 1 entries (rows of
+order above the degree are not produced: the callers fill them with zeros), and ROW 0 HOLDS THE BASIS FUNCTIONS THEMSELVES:
+result[0][y] == Bf(span - degree + y, degree), the span-anchored Cox-de Boor spec function of C03 (the upper triangle of ndu,
+column c, holds the degree-c basis functions; same invariants as the contract of helpers.basis_function).  That row k >= 1
+holds the k-th derivatives is decided by the bounded tier (formal derivative of the symbolic basis functions)."""
 from collections import OrderedDict as OD
+from .helpers_basis import FUNCS, AXIOMS, BF, FC, GC
 
 V, M = ('list', 'real'), ('list', ('list', 'real'))
 SORTED_T = 'forall(a, 0, len(knot_vector), forall(b, a, len(knot_vector), knot_vector[a] <= knot_vector[b]))'
 SQ = lambda a, n: ['len(%s) == %s' % (a, n), 'forall(x, 0, %s, len(%s[x]) == degree + 1)' % (n, a)]
 LENS = ['len(left) == degree + 1', 'len(right) == degree + 1'] + SQ('ndu', 'degree + 1')
 LEFTRIGHT = 'forall(q, 1, %s, left[q] == knot - knot_vector[span + 1 - q] and right[q] == knot_vector[span + q] - knot)'
-LOWER = lambda top: 'forall(x, 1, %s, forall(y, 0, x, ndu[x][y] > 0))' % top
+LOWER = lambda top: ('forall(x, 1, %s, forall(y, 0, x, ndu[x][y] == knot_vector[span + y + 1] - knot_vector[span + 1 - x + y] '
+                     'and ndu[x][y] > 0))' % top)
+# upper triangle (diagonal included): column c holds the degree-c basis functions of the span
+UPPER = lambda top: 'forall(c, 0, %s, forall(x, 0, c + 1, ndu[x][c] == %s))' % (top, BF('span - c + x', 'c'))
+SUPPORT = lambda d: 'forall(i, implies(i + (%s) < span or i > span, %s == 0))' % (d, BF('i', d))
+ROW0 = 'forall(y, 0, degree + 1, ders[0][y] == %s)' % BF('span - degree + y', 'degree')
 ORD = ['order == min(degree, old(order))', 'order >= 0', 'order <= degree']
 DERS = SQ('ders', 'order + 1')
 A2 = SQ('a', '2')
@@ -22,23 +30,51 @@ CONTRACTS = {
         props=['C02'],
         args=OD([('degree', 'int'), ('knot_vector', V), ('span', 'int'), ('knot', 'real'), ('order', 'int')]),
         returns=M, locals={'ndu': M, 'ders': M, 'a': M},
+        funcs=FUNCS, axioms=AXIOMS,
         requires=['degree >= 0', 'order >= 0', SORTED_T, 'span >= 0', 'span + 1 - degree >= 0', 'span + degree < len(knot_vector)',
                   'span + 1 < len(knot_vector)', 'knot_vector[span] < knot_vector[span + 1]',
                   'knot_vector[span] <= knot', 'knot <= knot_vector[span + 1]'],
-        ensures=['len(result) == min(degree, order) + 1', 'forall(x, 0, len(result), len(result[x]) == degree + 1)'],
+        ensures=['len(result) == min(degree, order) + 1', 'forall(x, 0, len(result), len(result[x]) == degree + 1)',
+                 # row 0 holds the basis functions themselves (span-anchored Cox-de Boor, the spec function of C03)
+                 'forall(y, 0, degree + 1, result[0][y] == %s)' % BF('span - degree + y', 'degree')],
         loops={
-            0: dict(inv=LENS + ['1 <= j', LEFTRIGHT % 'j', LOWER('j')]),
-            1: dict(inv=LENS + [LEFTRIGHT % 'j + 1', LOWER('j'), 'forall(y, 0, r, ndu[j][y] > 0)'],
-                    hints=['right[head_r + 1] + left[j - head_r] == knot_vector[span + head_r + 1] - knot_vector[span + 1 - j + head_r]',
-                           'right[head_r + 1] + left[j - head_r] > 0']),
-            2: dict(inv=LENS + [LOWER('degree + 1')] + ORD + DERS),
-            3: dict(inv=LENS + [LOWER('degree + 1')] + ORD + DERS + A2),
-            4: dict(inv=LENS + [LOWER('degree + 1')] + ORD + DERS + A2 + ['s1 + s2 == 1', '0 <= s1', 's1 <= 1']),
-            5: dict(inv=LENS + [LOWER('degree + 1')] + ORD + DERS + A2 + ['s1 + s2 == 1', '0 <= s1', 's1 <= 1', 'rk == r - k', 'pk == degree - k',
+            0: dict(inv=LENS + ['1 <= j', LEFTRIGHT % 'j', LOWER('j'), UPPER('j'), SUPPORT('j - 1')],
+                    # the diagonal entry written after the inner loop: saved = Fc * Bf(span, j-1), and the other Cox-de Boor
+                    # term vanishes because Bf(span + 1, j - 1) lies outside the support
+                    hints=['%s == 0' % BF('span + 1', 'head_j - 1'),
+                           '%s == %s * %s + %s * %s' % (BF('span', 'head_j'), FC('span', 'head_j'), BF('span', 'head_j - 1'),
+                                                        GC('span', 'head_j'), BF('span + 1', 'head_j - 1')),
+                           'saved == %s * %s' % (FC('span', 'head_j'), BF('span', 'head_j - 1')),
+                           'ndu[head_j][head_j] == %s' % BF('span', 'head_j'),
+                           'forall(x, 0, head_j + 1, ndu[x][head_j] == %s)' % BF('span - head_j + x', 'head_j')]),
+            1: dict(inv=LENS + [LEFTRIGHT % 'j + 1', LOWER('j'),
+                                'forall(y, 0, r, ndu[j][y] == knot_vector[span + y + 1] - knot_vector[span + 1 - j + y] and ndu[j][y] > 0)',
+                                UPPER('j'), SUPPORT('j - 1'),
+                                'forall(x, 0, r, ndu[x][j] == %s)' % BF('span - j + x', 'j'),
+                                'saved == %s * %s' % (FC('span - j + r', 'j'), BF('span - j + r', 'j - 1'))],
+                    hints=['right[head_r + 1] == knot_vector[span + head_r + 1] - knot',
+                           'left[j - head_r] == knot - knot_vector[span + 1 - j + head_r]',
+                           'right[head_r + 1] + left[j - head_r] == knot_vector[span + head_r + 1] - knot_vector[span + 1 - j + head_r]',
+                           'right[head_r + 1] + left[j - head_r] > 0',
+                           # the two definitional axioms at this index, in the axioms' own form
+                           '%s * (knot_vector[span + head_r + 1] - knot_vector[span + 1 - j + head_r]) == knot_vector[span + head_r + 1] - knot' % GC('span - j + head_r', 'j'),
+                           '%s * (knot_vector[span + head_r + 1] - knot_vector[span + 1 - j + head_r]) == knot - knot_vector[span + 1 - j + head_r]' % FC('span - j + head_r + 1', 'j'),
+                           '%s * (right[head_r + 1] + left[j - head_r]) == right[head_r + 1]' % GC('span - j + head_r', 'j'),
+                           '%s * (right[head_r + 1] + left[j - head_r]) == left[j - head_r]' % FC('span - j + head_r + 1', 'j'),
+                           'temp * (right[head_r + 1] + left[j - head_r]) == %s' % BF('span - j + head_r + 1', 'j - 1'),
+                           'right[head_r + 1] * temp == %s * %s' % (GC('span - j + head_r', 'j'), BF('span - j + head_r + 1', 'j - 1')),
+                           'left[j - head_r] * temp == %s * %s' % (FC('span - j + head_r + 1', 'j'), BF('span - j + head_r + 1', 'j - 1')),
+                           '%s == %s * %s + %s * %s' % (BF('span - j + head_r', 'j'), FC('span - j + head_r', 'j'),
+                                                        BF('span - j + head_r', 'j - 1'), GC('span - j + head_r', 'j'),
+                                                        BF('span - j + head_r + 1', 'j - 1'))]),
+            2: dict(inv=LENS + [LOWER('degree + 1'), UPPER('degree + 1')] + ORD + DERS + ['forall(y, 0, j, ders[0][y] == %s)' % BF('span - degree + y', 'degree')]),
+            3: dict(inv=LENS + [LOWER('degree + 1'), ROW0] + ORD + DERS + A2),
+            4: dict(inv=LENS + [LOWER('degree + 1'), ROW0] + ORD + DERS + A2 + ['s1 + s2 == 1', '0 <= s1', 's1 <= 1']),
+            5: dict(inv=LENS + [LOWER('degree + 1'), ROW0] + ORD + DERS + A2 + ['s1 + s2 == 1', '0 <= s1', 's1 <= 1', 'rk == r - k', 'pk == degree - k',
                                  '1 <= j1', 'rk + j1 >= 0', 'j2 <= degree', 'rk + j2 <= pk']),
-            6: dict(inv=ORD + DERS),
-            7: dict(inv=ORD + DERS),
+            6: dict(inv=ORD + DERS + [ROW0]),
+            7: dict(inv=ORD + DERS + [ROW0, 'k >= 1']),
         },
-        rounds=3, timeout_ms=30000, chunks=6,
+        rounds=3, timeout_ms=30000, chunks=14,
     ),
 }
